@@ -113,6 +113,14 @@ partial def parseNodes (top : Bool) (cs : List Char) (acc : List Tmpl) : Option 
     let (c, r) ← hexField r
     parseNodes top r (.comment c :: acc)
   | 'Y' :: r => parseNodes top r (.doctype :: acc)
+  -- `{()}` / `{}` / statement-only block / `{None::<String>}` / empty Vec (the digit names the source form)
+  | 'V' :: _ :: r => parseNodes top r (.unit :: acc)
+  -- a component with spread attributes: 'Q' ('0' Wrap | '1' Card) attr* '>' node* '<'
+  | 'Q' :: r => do
+    let (card, r) ← bitField r
+    let (attrs, r) ← parseAttrs r []
+    let (kids, r) ← parseNodes false r []
+    parseNodes top r (.compA card attrs kids :: acc)
   | 'E' :: r => do
     let (tag, r) ← untilSemi r
     if tag.isEmpty || !tag.all nameChar then none
@@ -158,6 +166,7 @@ partial def renTmpl : Tmpl → Tmpl
   | .elem tag attrs kids => .elem (renTag tag) attrs (kids.map renTmpl)
   | .frag kids => .frag (kids.map renTmpl)
   | .comp kids => .comp (kids.map renTmpl)
+  | .compA c a kids => .compA c a (kids.map renTmpl)
   | t => t
 
 /-- a leading `<!DOCTYPE html>` is outside the parser subset and not part of the tree -/
@@ -170,6 +179,7 @@ partial def hasElem : List Tmpl → Bool
   | [] => false
   | .elem _ _ _ :: _ => true
   | .comp _ :: _ => true
+  | .compA _ _ _ :: _ => true
   | .frag k :: r => hasElem k || hasElem r
   | _ :: r => hasElem r
 
@@ -178,6 +188,7 @@ partial def noscriptFlags : List Tmpl → List Bool
   | .elem tag _ kids :: r => (if tag = tNoscript then [hasElem kids] else []) ++ noscriptFlags kids ++ noscriptFlags r
   | .frag k :: r => noscriptFlags k ++ noscriptFlags r
   | .comp k :: r => noscriptFlags k ++ noscriptFlags r
+  | .compA _ _ k :: r => noscriptFlags k ++ noscriptFlags r
   | _ :: r => noscriptFlags r
 
 /-- re-parse the raw text of the flagged `<noscript>` elements as markup (document order) -/
